@@ -71,6 +71,7 @@ template <class P> inline void readPay(const P* p, uint8_t& has, uint8_t& seed, 
 struct EvA { int v; };
 struct EvB { int v; int w; };
 using EvP = const EvA*;   // a pointer-typed event: "no message" is the null value
+enum class Sig : int { Tick = 3, Tock = 9 };   // an enum event and a plain int event: scalars are events like any other (the callbacks get the caller's object)
 struct Ctx { int tag = 0; EvA mailA{0}; EvB mailB{0, 0}; };   // the mail slots let react()/query() be handed an event stored in the context
 
 // ---- world ------------------------------------------------------------------------------------
@@ -298,7 +299,12 @@ struct Inj<CFG, I, J, true> : Zoo<CFG>::FSM::State {
 	bool thisOk() const;
 	VF_LOCAL
 	VF_CB_ENTRY_GUARD(I, J) VF_CB_ENTER(I, J) VF_CB_REENTER(I, J) VF_CB_PRE_UPDATE(I, J) VF_CB_UPDATE(I, J) VF_CB_POST_UPDATE(I, J) VF_CB_EXIT_GUARD(I, J) VF_CB_EXIT(I, J)
-	VF_CB_EVENTS_NT(I, J, EvA) VF_CB_EVENTS_NT(I, J, EvB) VF_CB_EVENTS_NT(I, J, EvP)
+	VF_CB_EVENTS_NT(I, J, EvA) VF_CB_EVENTS_NT(I, J, EvB) VF_CB_EVENTS_NT(I, J, EvP) VF_CB_EVENTS_NT(I, J, int)
+	// the enum event is taken BY VALUE (a natural signature for a scalar): overload resolution must still prefer these over the inherited templates
+	void preReact(Sig, FullControl& c) { Runner<CFG>::cb(c, I, M_PRE_REACT, J, thisOk(), nullptr, ++seen); }
+	void react(Sig, FullControl& c) { Runner<CFG>::cb(c, I, M_REACT, J, thisOk(), nullptr, ++seen); }
+	void postReact(Sig, FullControl& c) { Runner<CFG>::cb(c, I, M_POST_REACT, J, thisOk(), nullptr, ++seen); }
+	void query(Sig, ConstControl& c) const { Runner<CFG>::cb(c, I, M_QUERY, J, thisOk(), nullptr, ++seen); }
 	virtual ~Inj() = default;
 };
 #undef VF_VIRT
@@ -673,19 +679,23 @@ struct Runner {
 #endif
 		{	// context identity
 			bool ok = true;
-			if constexpr (Z::CTX == 0) ok = static_cast<const void*>(&control.context()) == static_cast<const void*>(&m.context()) && static_cast<const void*>(&control._()) == static_cast<const void*>(&m.context());
-			else if constexpr (Z::CTX == 1) ok = &control.context() == &m.context() && &control._() == &m.context() && control.context().tag == W.ctxTag[W.cur];
-			else if constexpr (Z::CTX == 2) ok = &control.context() == &W.ctxObj[W.ctxOf[W.cur]] && &control._() == &W.ctxObj[W.ctxOf[W.cur]] && &m.context() == &W.ctxObj[W.ctxOf[W.cur]];
+			auto&& viaContext = control.context(); auto&& viaShort = control._(); auto&& viaMachine = m.context();   // (bound to references: a by-value accessor yields a temporary, i.e. another object)
+			if constexpr (Z::CTX == 0) ok = static_cast<const void*>(&viaContext) == static_cast<const void*>(&viaMachine) && static_cast<const void*>(&viaShort) == static_cast<const void*>(&viaMachine);
+			else if constexpr (Z::CTX == 1) ok = &viaContext == &viaMachine && &viaShort == &viaMachine && viaContext.tag == W.ctxTag[W.cur];
+			else if constexpr (Z::CTX == 2) ok = &viaContext == &W.ctxObj[W.ctxOf[W.cur]] && &viaShort == &W.ctxObj[W.ctxOf[W.cur]] && &viaMachine == &W.ctxObj[W.ctxOf[W.cur]];
 			else ok = control.context() == &W.ctxObj[W.ctxOf[W.cur]] && control._() == &W.ctxObj[W.ctxOf[W.cur]] && m.context() == &W.ctxObj[W.ctxOf[W.cur]];
 			{	// the const overloads (control and machine) show the same context object
 				const C& cc = control; const Instance& cm = m;
 				if constexpr (Z::CTX == 3) ok = ok && cc.context() == control.context() && cc._() == control._() && cm.context() == m.context();
-				else ok = ok && static_cast<const void*>(&cc.context()) == static_cast<const void*>(&control.context()) && static_cast<const void*>(&cc._()) == static_cast<const void*>(&control._()) &&
-					static_cast<const void*>(&cm.context()) == static_cast<const void*>(&m.context());
+				else { auto&& c1 = cc.context(); auto&& c2 = cc._(); auto&& c3 = cm.context();
+					ok = ok && static_cast<const void*>(&c1) == static_cast<const void*>(&viaContext) && static_cast<const void*>(&c2) == static_cast<const void*>(&viaShort) && static_cast<const void*>(&c3) == static_cast<const void*>(&viaMachine); }
 			}
 			e.ctxOk = ok;
 		}
 		observe(W.cur, e);
+#ifdef VF_SERIAL
+		observeSerial(W.cur, e);   // save() is a const observer like activeStateId(): what it writes must agree with the activity reported at this very moment
+#endif
 #ifdef VF_PLANS
 		{	// control.plan() must show the same sequence as machine.plan()
 			bool trunc = false;
@@ -1030,7 +1040,18 @@ struct Runner {
 			uint8_t place = static_cast<uint8_t>((op.a >> 1) & 3);
 			if (place == 1 && code == OP_REACT) place = 0;   // 1: query() with a const-qualified event object
 			if (place == 2 && Z::CTX == 0) place = 0;
-			if ((op.a >> 3) % 3 == 2) {
+			if ((op.a >> 3) % 5 >= 3) {
+				// scalar event types: a plain int (3) and an enum (4)
+				const uint8_t et = static_cast<uint8_t>((op.a >> 3) % 5);
+				begin(inst, code, et, op.b, 0);
+				int iv = op.b; Sig sv = (op.b & 1) ? Sig::Tick : Sig::Tock;
+				if (et == 3) { W.evtAddr = &iv; if (code == OP_REACT) ok = guarded(inst, [&] { const int& ev = iv; m.react(ev); }); else ok = guarded(inst, [&] { const Instance& cm = m; cm.query(iv); }); }
+				else { W.evtAddr = &sv; if (code == OP_REACT) ok = guarded(inst, [&] { const Sig& ev = sv; m.react(ev); }); else ok = guarded(inst, [&] { const Instance& cm = m; cm.query(sv); }); }
+				W.evtAddr = nullptr;
+				op.a = et;
+				break;
+			}
+			if ((op.a >> 3) % 5 == 2) {
 				// third event type: a pointer; every other value of b is the null pointer ("no message") -- an event value like any other
 				begin(inst, code, 2, op.b, 0);
 				const EvA target{op.b};
